@@ -181,6 +181,9 @@ fn eval_prefix(prefixes: &BTreeMap<String, Numeric>, expr: &Expr) -> Result<Nume
         }) => {
             let left = eval_prefix(prefixes, &*left)?;
             let right = eval_prefix(prefixes, &*right)?;
+            if right == Numeric::zero() {
+                return Err("Division by zero".to_string());
+            }
             Ok(&left / &right)
         }
         Expr::BinOp(BinOpExpr {
@@ -194,6 +197,12 @@ fn eval_prefix(prefixes: &BTreeMap<String, Numeric>, expr: &Expr) -> Result<Nume
                 .to_int()
                 .and_then(|value| value.try_into().ok())
                 .ok_or_else(|| "Exponent is too big".to_string())?;
+            if right == i32::MIN {
+                return Err("Exponent is too big".to_string());
+            }
+            if right < 0 && left == Numeric::zero() {
+                return Err("Division by zero".to_string());
+            }
             Ok(left.pow(right))
         }
         Expr::UnaryOp(UnaryOpExpr {
@@ -252,6 +261,9 @@ fn eval_quantity(
                     let value = value
                         .to_int()
                         .ok_or_else(|| "RHS of `^` is too big".to_string())?;
+                    if left.iter().any(|(_, p)| p.checked_mul(value).is_none()) {
+                        return Err("RHS of `^` is too big".to_string());
+                    }
                     Ok(left.pow(value))
                 }
                 Expr::UnaryOp(UnaryOpExpr {
@@ -262,6 +274,9 @@ fn eval_quantity(
                         let value = -value
                             .to_int()
                             .ok_or_else(|| "RHS of `^` is too big".to_string())?;
+                        if left.iter().any(|(_, p)| p.checked_mul(value).is_none()) {
+                            return Err("RHS of `^` is too big".to_string());
+                        }
                         Ok(left.pow(value))
                     } else {
                         Err(format!("RHS of `^` must be a constant: {expr}"))
